@@ -343,9 +343,9 @@ def run(c: Campaign, jobs: int) -> None:
         args.append((shard_crash, (c.prop, c.tier, c.seed, name, True)))
         args.append((shard_crash, (c.prop, c.tier, c.seed, name, False)))
     for name in ("signal-vs-suspend-persistent", "signal-vs-suspend-transient", "signal-vs-startstage-persistent", "signal-vs-startstage-transient", "buffered-resume-vs-second-worker"):
-        args.append((shard_race, (c.prop, c.tier, c.seed, name, 2 if quick else 4)))
+        args.append((shard_race, (c.prop, c.tier, c.seed, name, 2 if quick else 3)))
     run_shards(c, _dispatch, args, jobs)
-    c.exhaustive_parts.append("SignalStage racing the suspending RunTask result (persistent and transient): all schedules with <= 2 pre-emptions (thorough 4)")
+    c.exhaustive_parts.append("SignalStage racing the suspending RunTask result (persistent and transient): all schedules with <= 2 pre-emptions (thorough 3)")
     c.exhaustive_parts.append("signal (persistent and transient) before every delivery position of the FIFO run and of a SignalStage-hold-back schedule of 4 gate specs")
     c.rule = ("case = (gate spec, schedule, signals with position / kind / payload) or (gate spec, crash point of the signalled or un-signalled run). "
               "Non-trivial = an effective signal that was handled while the gate was NOT yet suspended (before it started or while it was running). "
